@@ -15,8 +15,9 @@ import json
 import os
 import re
 import shutil
+import subprocess
 
-from vlib import cli, common
+from vlib import cli, common, cxx
 from vlib.common import pmap, rng, Inconclusive
 
 LEVEL = "exploration"
@@ -84,7 +85,7 @@ def write_graph(base, n, adj_ordered, ns_of=None, dir_of=None, import_path=None)
         if imps:
             man += "imports:\n" + "".join("  - %s\n" % (import_path(i, j) if import_path else "../" + dir_of(j)) for j in imps)
         if i == 0:
-            man += "json:\n  outputDir: ../out/json\npython:\n  outputDir: ../out/py\n"
+            man += "json:\n  outputDir: ../out/json\npython:\n  outputDir: ../out/py\ncpp:\n  sourcesOutputDir: ../out/cpp\n  generateCMakeLists: false\n  generateHDF5: false\n  generateNDJson: false\n  overrideArrayHeader: %s\n" % cxx.ARRAY_HEADER
         fields = "    own: int\n" + "".join("    f%d: %s.R%d?\n" % (j, ns_of(j), j) for j in sorted(set(imps)) if j != i)
         model = "R%d: !record\n  fields:\n%s" % (i, fields)
         if i == 0:
@@ -93,6 +94,16 @@ def write_graph(base, n, adj_ordered, ns_of=None, dir_of=None, import_path=None)
         files[dir_of(i) + "/model.yml"] = model
     common.write_tree(base, files)
     return os.path.join(base, dir_of(0))
+
+
+def cpp_types_compile(ctx, base) -> bool:
+    """g++ -fsyntax-only of the generated types.cc (all namespaces of the graph are emitted into one types.h, dependencies first)"""
+    cpp_dir = os.path.join(base, "out", "cpp")
+    with cxx._cc_sem:
+        pr = subprocess.run(cxx.compile_cmd("syntax", os.path.join(cpp_dir, "types.cc"), None, cpp_dir), capture_output=True, text=True)
+    ctx.ev()
+    ctx.count("cpp-types-compiled")
+    return pr.returncode == 0
 
 
 def observe(pkgdir, home):
@@ -218,6 +229,8 @@ def run(ctx):
                         ctx.count("python-import-checked")
                         if pr.rc != 0:
                             ctx.violation("python-import-failed:shared-import", "%s order %s: the generated Python package does not import: %s" % (desc, ordered, pr.stderr[-300:]), case); ok = False
+                        if not cpp_types_compile(ctx, base):
+                            ctx.violation("cpp-compile-failed:shared-import", "%s order %s: the generated C++ types.cc does not compile (a namespace is used before it is declared?)" % (desc, ordered), case); ok = False
                     if sorted(parsed) != want:
                         ctx.violation("load-count", "%s order %s: namespaces parsed %s, expected each of %s exactly once" % (desc, ordered, sorted(parsed), want), case); ok = False
         first = results[0]
@@ -252,7 +265,11 @@ def special(ctx, home):
         ctx.case(("special", name))
         ctx.count("special")
         site = cli.panic_site(p.stderr)
-        if site:
+        if p.timed_out:
+            raise Inconclusive("watchdog")
+        if p.cpu_exceeded:
+            ctx.violation("hang", "layout %s: loading does not terminate (CPU bound)" % name, {"case_dir": base, "stderr": cli.clean(p.stderr)[-600:]})
+        elif site:
             ctx.violation("panic@%s" % site, "layout %s: crash" % name, {"case_dir": base, "stderr": cli.clean(p.stderr)[-1500:]})
         elif expect_rc is not None and p.rc != expect_rc:
             ctx.violation(sig, "layout %s: %s (rc=%s, %s)" % (name, explain, p.rc, cli.clean(p.stderr)[:300]), {"case_dir": base, "stderr": cli.clean(p.stderr)[-1500:]})
@@ -288,6 +305,31 @@ def special(ctx, home):
         return d
     case("same-dir-via-symlink", symlink, 0, "rejected:symlink", "one directory reached directly and through a symlink is one package, not a namespace conflict")
 
+    # cycles whose closing edge names a package already on the import path through a symbolic link to its directory (or to a parent of it)
+    def cyc_root(base):
+        d = write_graph(base, 2, {0: [1], 1: [0]}, import_path=lambda i, j: "../rootlink" if j == 0 else "../p%d" % j)
+        os.symlink("p0", os.path.join(base, "rootlink"))
+        return d
+    case("cycle-closed-through-symlink", cyc_root, 1, "accepted:cycle-via-symlink", "root -> p1 -> (symlink to root): a cyclic import must be reported")
+
+    def cyc_inner(base):
+        d = write_graph(base, 3, {0: [1], 1: [2], 2: [1]}, import_path=lambda i, j: "../link1" if (i == 2 and j == 1) else "../p%d" % j)
+        os.symlink("p1", os.path.join(base, "link1"))
+        return d
+    case("inner-cycle-closed-through-symlink", cyc_inner, 1, "accepted:cycle-via-symlink", "root -> p1 -> p2 -> (symlink to p1): a cyclic import must be reported")
+
+    def cyc_parent(base):
+        d = write_graph(base, 2, {0: [1], 1: [0]}, dir_of=lambda i: "tree/p%d" % i, import_path=lambda i, j: "../../mirror/p0" if j == 0 else "../p%d" % j)
+        os.symlink("tree", os.path.join(base, "mirror"))
+        return d
+    case("cycle-closed-through-symlinked-parent", cyc_parent, 1, "accepted:cycle-via-symlink", "root -> p1 -> root reached through a symlink to the parent directory: a cyclic import must be reported")
+
+    def self_link(base):
+        d = write_graph(base, 1, {0: [0]}, import_path=lambda i, j: "../self")
+        os.symlink("p0", os.path.join(base, "self"))
+        return d
+    case("self-import-through-symlink", self_link, 1, "accepted:cycle-via-symlink", "a package that imports a symlink to itself: a cyclic import must be reported")
+
     # the same *relative import text* written in packages that live in different parent directories names different directories
     def same_relative_text(base):
         files = {"ws/left/common/_package.yml": "namespace: LeftCommon\n", "ws/left/common/c.yml": "LT: !record\n  fields:\n    l: int\n",
@@ -309,6 +351,28 @@ def special(ctx, home):
             return d
         p = case("same-relative-import-text-" + order, build, 0, "rejected-valid-graph:same-relative-text",
                  "two packages in different parent directories both import '../common' (two different directories): a valid graph")
+
+    # a package reachable from the root by two import paths of different length ("shortcut"), every listing order of the root's imports
+    shortcuts = {"short-1-2": (3, {0: [1, 2], 2: [1]}), "short-1-3": (4, {0: [1, 2], 2: [3], 3: [1]}), "short-inner": (4, {0: [1], 1: [3, 2], 2: [3]}),
+                 "short-two": (5, {0: [1, 2, 3], 2: [1], 3: [2, 4], 4: [1]})}
+    for nm, (n, adj) in shortcuts.items():
+        u = max(adj, key=lambda k: len(adj[k]))
+        for oi, perm in enumerate(itertools.permutations(adj[u])):
+            base = os.path.join(W, "cases", "sp_%s_%d" % (nm, oi))
+            shutil.rmtree(base, ignore_errors=True)
+            ordered = dict(adj)
+            ordered[u] = list(perm)
+            pkgdir = write_graph(base, n, ordered)
+            p, parsed, dump = observe(pkgdir, home)
+            ctx.ev()
+            ctx.case(("special", nm, perm))
+            ctx.count("special.shortcut")
+            if p.rc != 0:
+                ctx.violation("rejected-valid-graph:shortcut", "layout %s order %s: valid import graph rejected: %s" % (nm, ordered, cli.clean(p.stderr)[:300]), {"case_dir": base})
+            elif not cpp_types_compile(ctx, base):
+                ctx.violation("cpp-compile-failed:shared-import", "layout %s order %s: a package imported both directly and through another import: the generated C++ types.cc does not compile" % (nm, ordered), {"case_dir": base, "graph": adj, "order": ordered})
+            else:
+                shutil.rmtree(base, ignore_errors=True)
 
     # chains around the limit: k packages in a line
     for k in (9, 10, 11, 12, 13):
